@@ -5,8 +5,9 @@ import random
 from harness.lib import hx, zl, cz, cbool, clist
 
 ID = 'C13'
-RULE = ('one case = one public call (get_kmers / get_minimizers / match_string / get_motif_scores with an integer-valued and with a '
-        'real-valued matrix / count_kmers flat and per row / KmerEncoding.encode+to_string) on a ragged list of sequences; every tuple of row lengths of the small '
+RULE = ('one case = one public call (get_kmers / get_minimizers / match_string / get_motif_scores with an integer-valued matrix and with a '
+        'real-valued matrix built by every public PWM constructor incl. backgrounds in every key order and read_motif / count_kmers flat, per row, '
+        'weighted, and on rows of more than 10^6 letters / KmerEncoding.encode+to_string), called positionally and with keyword arguments in both orders, on a ragged list of sequences; every tuple of row lengths of the small '
         'grid x every window length with total letters >= window (exhaustive over lengths, letters random), plus rows of '
         'length w-1, w, w+1, empty rows, a short last row, windows up to 31 and flat data crossing the 32-letter '
         'register border of the bit-packed path; the collection is a freshly built array or a non-contiguous VIEW of a larger '
@@ -39,7 +40,9 @@ PER_FILE = 40
 
 ALPHS = [('dna', 'ACGT'), ('custom', 'ACGTN'), ('custom', 'ACTG'), ('amino', 'ACDEFGHIKLMNPQRSTVWY*'),
          ('dna', 'ACGT'), ('custom', 'ACG'), ('custom', 'AC')]
-OPS = ['kmers', 'minimizers', 'match', 'motif', 'count', 'count_rows', 'codec', 'motif_real']
+OPS = ['kmers', 'minimizers', 'match', 'motif', 'count', 'count_rows', 'codec', 'motif_real', 'count_weighted', 'count_big']
+GRID_OPS = OPS[:9]       # count_big is generated separately (a few fixed cases)
+CTORS = ['from_counts', 'from_dict', 'from_dict_bg_same_order', 'from_dict_bg_permuted', 'from_dict_bg_uniform_permuted', 'jaspar', 'csv']
 SCALE = 2 ** 20          # motif_real: scores and matrix entries are handed to Coq as round(x * SCALE)
 KMAX = {2: 31, 3: 31, 4: 31, 5: 27, 21: 14}          # |A|^k < 2^63
 
@@ -65,9 +68,25 @@ def _mk(rng, op, enc, alpha, lens, w, k=None, ascii_in=False, low_entropy=False,
             case['pat'] = ''.join(rng.choice(letters) for _ in range(w))
     if op == 'motif':
         case['cols'] = [[rng.randint(-40, 40) for _ in range(n)] for _ in range(w)]
+    case['kw'] = rng.randrange(3)          # 0 positional, 1 keyword arguments, 2 keyword arguments in reverse order
     if op == 'motif_real':
-        # position counts; the matrix is PWM.from_counts(...) = log((c+1)/column sum): real-valued
-        case['counts'] = [[rng.randint(0, 30) for _ in range(n)] for _ in range(w)]
+        # a real-valued matrix built by one of the public constructors from INPUT numbers (integer weights; the
+        # probability of letter a at position j is weight / column sum); the background lists the letters in its own order
+        ctor = CTORS[rng.randrange(len(CTORS))]
+        case['ctor'] = ctor
+        case['weights'] = [[rng.randint(0 if ctor == 'from_counts' else 1, 30) for _ in range(n)] for _ in range(w)]
+        if 'bg' in ctor:
+            order = list(range(n))
+            if 'permuted' in ctor:
+                while order == list(range(n)):
+                    rng.shuffle(order)
+            bw = [5] * n if 'uniform' in ctor else [rng.randint(1, 9) for _ in range(n)]
+            if 'uniform' not in ctor and len(set(bw)) == 1:
+                bw[0] += 3
+            case['bg'] = [[alpha[i], bw[i]] for i in order]       # (letter, weight) in the order the dict lists them
+    if op == 'count_weighted':
+        nwin = sum(max(L - w + 1, 0) for L in lens)
+        case['weights'] = [rng.randint(0, 9) for _ in range(nwin)]
     if dense and op != 'codec' and len(rows) == 1:
         case['kind'] = 'single'            # one sequence handed over as a 1-d EncodedArray, not a ragged array
         return case
@@ -111,7 +130,7 @@ def _mk(rng, op, enc, alpha, lens, w, k=None, ascii_in=False, low_entropy=False,
 def _ok(op, n, w, total):
     if w < 1 or total < w or w > KMAX[n]:
         return False
-    if op in ('count', 'count_rows') and (n ** w > 300 or w > 8):
+    if op in ('count', 'count_rows', 'count_weighted') and (n ** w > 300 or w > 8):
         return False
     return True
 
@@ -126,17 +145,17 @@ def generate(tier, seed):
     else:
         grids = [(1, 8), (2, 6), (3, 5), (4, 3)]
         wmax = 7
-    cnt = {op: 0 for op in OPS}          # one counter per operation: alphabet / input form / letters cycle independently
+    cnt = {op: 0 for op in GRID_OPS}          # one counter per operation: alphabet / input form / letters cycle independently
     for nrows, maxlen in grids:
         for lens in itertools.product(range(maxlen + 1), repeat=nrows):
             for w in range(1, wmax + 1):
                 if sum(lens) < w:
                     continue
-                for op in OPS:
+                for op in GRID_OPS:
                     cnt[op] += 1
                     c = cnt[op]
                     enc, alpha = ALPHS[c % len(ALPHS)]
-                    if op in ('count', 'count_rows') and len(alpha) ** w > 300:
+                    if op in ('count', 'count_rows', 'count_weighted') and len(alpha) ** w > 300:
                         enc, alpha = ('dna', 'ACGT') if w <= 4 else ('custom', 'AC')
                     if not _ok(op, len(alpha), w, sum(lens)):
                         continue
@@ -146,10 +165,10 @@ def generate(tier, seed):
     # ---- boundary rows around the window, larger windows (up to 31), register borders of the packed path
     n_big = 700 if tier == 'quick' else 6000
     for i in range(n_big):
-        op = OPS[i % len(OPS)]
-        enc, alpha = ALPHS[(i // len(OPS)) % len(ALPHS)]
+        op = GRID_OPS[i % len(GRID_OPS)]
+        enc, alpha = ALPHS[(i // len(GRID_OPS)) % len(ALPHS)]
         n = len(alpha)
-        if op in ('count', 'count_rows'):
+        if op in ('count', 'count_rows', 'count_weighted'):
             w = rng.choice([w_ for w_ in range(1, 9) if n ** w_ <= 300])
         else:
             w = rng.choice([1, 2, 3, 4, 5, 8, 15, 16, 17, 30, 31, rng.randint(1, 31)])
@@ -161,7 +180,7 @@ def generate(tier, seed):
         lens = [max(0, rng.choice(pool)) for _ in range(nrows)]
         if i % 3 == 0:                       # a short last row
             lens[-1] = rng.choice([0, 1, max(0, w - 2), max(0, w - 1)])
-        j = i // len(OPS)
+        j = i // len(GRID_OPS)
         if j % 5 == 2 and nrows >= 2:         # equal-length reads (also handed over as a 2-d array)
             lens = [lens[0]] * nrows
         if sum(lens) < w:
@@ -171,6 +190,20 @@ def generate(tier, seed):
             k = min(w, rng.choice([1, 2, w, max(1, w - 1), rng.randint(1, w)]))
         cases.append(_mk(rng, op, enc, alpha, lens, w, k=k, ascii_in=(enc == 'dna' and op in ('kmers', 'match', 'motif', 'motif_real') and j % 3 == 1),
                          low_entropy=(i % 6 == 0), view=(VIEWS[(i // 2) % len(VIEWS)] if i % 2 == 1 else None), dense=(j % 5 == 2 or i % 4 == 0)))
+    # ---- size threshold: count_kmers(rows, 1) on more than 10^6 letters (count_encoded counts in chunks of 10^6 from
+    #      there on).  Rows are patterns repeated many times; only (pattern, repetitions) go to Coq.
+    def big(pats, reps):
+        return dict(op=OPS.index('count_big'), enc='dna', alpha='ACGT', ascii=False, rows=pats, reps=reps, w=1, k=1, pat='', cols=[],
+                    parent=None, view=None, kind='ragged', kw=len(cases) % 3)
+    r = rng.randint(0, 3)
+    bigs = [big(['ACGTT', 'GA', 'T'], [100000, 250000, 1]),                       # 1,000,001 letters
+            big(['ACGTT', 'GA', 'CCAT', 'TG'], [200000, 250000, 125000, 1]),       # 2,000,002
+            big(['ACGTT', 'GA'], [100000, 250000]),                                # exactly 1,000,000
+            big(['TTGCA' + 'ACGT'[r], 'C', 'AG'], [166666 + r, 3 + r, 1])]           # seed-dependent, just over 10^6
+    if tier != 'quick':
+        bigs += [big(['ACGTTGCA', 'GA', 'T'], [375000, 1, 1 + i]) for i in range(3)]   # 3,000,003 .. 3,000,005
+        bigs += [big(['AC', 'G', 'TTA'], [499999, 1, 1 + i]) for i in range(4)]
+    cases += bigs
     return cases
 
 
@@ -204,6 +237,63 @@ def _num(v):
     if f != f or f in (float('inf'), float('-inf')) or f != int(f):
         return 999999937          # a value no specification accepts
     return int(v) if not isinstance(v, float) else int(f)
+
+
+def real_cols(case):
+    """The motif matrix DEFINED by the inputs of a motif_real case, as round(x * SCALE) per position and letter:
+    from_counts: log((c+1) / sum(c+1)); from_dict / jaspar / csv: log(p) - log(background), background 1/|A| unless given,
+    looked up BY LETTER.  (math.log in the harness: the labelled float test; Coq only sums and compares with a tolerance.)"""
+    import math
+    n = len(case['alpha'])
+    cols = []
+    if case['ctor'] == 'from_counts':
+        for col in case['weights']:
+            tot = sum(c + 1 for c in col)
+            cols.append([int(round(math.log((c + 1) / tot) * SCALE)) for c in col])
+        return cols
+    bg = {ch: 1.0 / n for ch in case['alpha']}
+    if case.get('bg'):
+        tot = sum(wt for _, wt in case['bg'])
+        bg = {ch: wt / tot for ch, wt in case['bg']}
+    for col in case['weights']:
+        tot = sum(col)
+        cols.append([int(round((math.log(col[i] / tot) - math.log(bg[case['alpha'][i]])) * SCALE)) for i in range(n)])
+    return cols
+
+
+def _build_pwm(case, PWM):
+    """the PWM through the public constructor named by the case, from the same input numbers"""
+    import os
+    import tempfile
+    import bionumpy as bnp
+    alpha, ctor = case['alpha'], case['ctor']
+    if ctor == 'from_counts':
+        return PWM.from_counts({ch: [col[i] for col in case['weights']] for i, ch in enumerate(alpha)})
+    probs = {ch: [col[i] / sum(col) for col in case['weights']] for i, ch in enumerate(alpha)}
+    if ctor == 'from_dict':
+        return PWM.from_dict(probs)
+    if ctor.startswith('from_dict_bg'):
+        tot = sum(wt for _, wt in case['bg'])
+        background = {ch: wt / tot for ch, wt in case['bg']}            # dict in the listed (possibly permuted) order
+        return PWM.from_dict(probs, background=background) if case['kw'] else PWM.from_dict(probs, background)
+    d = tempfile.mkdtemp(prefix='c13_')
+    try:
+        if ctor == 'jaspar':
+            path = os.path.join(d, 'm.jaspar')
+            with open(path, 'w') as f:
+                f.write('>M0001 test\n')
+                for ch in alpha:
+                    f.write('%s [ %s ]\n' % (ch, ' '.join(repr(x) for x in probs[ch])))
+        else:
+            path = os.path.join(d, 'm.csv')
+            with open(path, 'w') as f:
+                f.write(','.join(alpha) + '\n')
+                for j in range(len(case['weights'])):
+                    f.write(','.join(repr(probs[ch][j]) for ch in alpha) + '\n')
+        return bnp.io.read_motif(path)
+    finally:
+        import shutil
+        shutil.rmtree(d, ignore_errors=True)
 
 
 def _real(v):
@@ -257,33 +347,53 @@ def observe(case):
     seqs = make()
     nrows = len(rows)
     try:
+        kw = case.get('kw', 0)
         if op == 'kmers':
-            r = bnp.get_kmers(seqs, w)
+            r = [lambda: bnp.get_kmers(seqs, w), lambda: bnp.get_kmers(sequence=seqs, k=w), lambda: bnp.get_kmers(k=w, sequence=seqs)][kw]()
             # the returned k-mers rendered back to text through their own encoding (str of each element)
             raw = r.raw()
             texts = [str(x) for x in r] if (isinstance(raw, np.ndarray) and raw.ndim == 1) else [str(x) for row in r for x in row]
             return dict(out=[[_num(v) for v in row] for row in _ragged(r, nrows, kind)], labels=texts)
         if op == 'minimizers':
-            r = bnp.get_minimizers(seqs, case['k'], w)
+            r = [lambda: bnp.get_minimizers(seqs, case['k'], w), lambda: bnp.get_minimizers(sequence=seqs, k=case['k'], window_size=w),
+                 lambda: bnp.get_minimizers(window_size=w, k=case['k'], sequence=seqs)][kw]()
             return dict(out=[[_num(v) for v in row] for row in _ragged(r, nrows, kind)])
         if op == 'match':
-            r = bnp.match_string(seqs, case['pat'])
+            r = [lambda: bnp.match_string(seqs, case['pat']), lambda: bnp.match_string(sequence=seqs, matching_sequence=case['pat']),
+                 lambda: bnp.match_string(matching_sequence=case['pat'], sequence=seqs)][kw]()
             return dict(out=[[_num(v) for v in row] for row in _ragged(r, nrows, kind)])
         if op == 'motif':
             m = np.array(case['cols'], dtype=float).T.copy()          # alphabet x positions
-            r = bnp.get_motif_scores(seqs, PWM(m, alpha))
+            pwm = PWM(m, alpha) if kw == 0 else (PWM(matrix=m, alphabet=alpha) if kw == 1 else PWM(alphabet=alpha, matrix=m))
+            r = [lambda: bnp.get_motif_scores(seqs, pwm), lambda: bnp.get_motif_scores(sequence=seqs, pwm=pwm),
+                 lambda: bnp.get_motif_scores(pwm=pwm, sequence=seqs)][kw]()
             return dict(out=[[_num(v) for v in row] for row in _ragged(r, nrows, kind)])
         if op == 'motif_real':
-            pwm = PWM.from_counts({ch: [col[i] for col in case['counts']] for i, ch in enumerate(alpha)})
+            pwm = _build_pwm(case, PWM)
             r = bnp.get_motif_scores(seqs, pwm)
-            m = np.asarray(pwm._matrix, dtype=float)            # alphabet x positions, the matrix actually used
-            return dict(out=[[_real(v) for v in row] for row in _ragged(r, nrows, kind)],
-                        cols=[[_real(m[a, j]) for a in range(m.shape[0])] for j in range(m.shape[1])])
+            return dict(out=[[_real(v) for v in row] for row in _ragged(r, nrows, kind)])
         if op in ('count', 'count_rows'):
-            c = bnp.sequence.count_kmers(seqs, w) if op == 'count' else bnp.sequence.count_kmers(seqs, w, axis=-1)
+            ax = None if op == 'count' else -1
+            if op == 'count' and kw == 0:
+                c = bnp.sequence.count_kmers(seqs, w)                 # axis defaults to None
+            else:
+                c = [lambda: bnp.sequence.count_kmers(seqs, w, ax), lambda: bnp.sequence.count_kmers(sequence=seqs, k=w, axis=ax),
+                     lambda: bnp.sequence.count_kmers(axis=ax, k=w, sequence=seqs)][kw]()
             cnt = np.asarray(c.counts)
             out = [[_num(v) for v in cnt]] if (op == 'count' or cnt.ndim == 1) else [[_num(v) for v in row] for row in cnt]
             return dict(out=out, labels=[str(s) for s in c.alphabet])
+        if op == 'count_weighted':
+            from bionumpy.sequence.count_encoded import count_encoded
+            kmers = bnp.get_kmers(seqs, w).ravel()
+            wts = np.array(case['weights'], dtype=int)
+            c = [lambda: count_encoded(kmers, wts, None), lambda: count_encoded(kmers, weights=wts, axis=None),
+                 lambda: count_encoded(axis=None, weights=wts, values=kmers)][kw]()
+            return dict(out=[[_num(v) for v in np.asarray(c.counts)]], labels=[str(s) for s in c.alphabet])
+        if op == 'count_big':
+            big = bnp.as_encoded_array([p * r_ for p, r_ in zip(rows, case['reps'])], enc)
+            c = [lambda: bnp.sequence.count_kmers(big, 1), lambda: bnp.sequence.count_kmers(sequence=big, k=1),
+                 lambda: bnp.sequence.count_kmers(k=1, axis=None, sequence=big)][kw]()
+            return dict(out=[[_num(v) for v in np.asarray(c.counts)]], labels=[str(s) for s in c.alphabet])
         if op == 'codec':
             ke = KmerEncoding(enc, w)
             out = []
@@ -317,16 +427,20 @@ def to_coq(case, o):
     out = [] if err else o['out']
     labels = [] if err else o.get('labels', [])
     kind = {'matrix': 2, 'matrix_ascii': 3}.get(case.get('kind', 'ragged'), 0)
-    cols = o.get('cols', []) if OPS[case['op']] == 'motif_real' else case['cols']
+    opn = OPS[case['op']]
+    cols = real_cols(case) if opn == 'motif_real' else case['cols']
+    pat = zl(case['weights']) if opn == 'count_weighted' else (zl(case['reps']) if opn == 'count_big' else zl(_codes(case, case['pat'])))
     return ('{| k_op := %s; k_kind := %s; k_alpha := %s; k_rows := %s; k_w := %s; k_k := %s; k_pat := %s; k_cols := %s; '
             'k_err := %s; k_out := %s; k_labels := %s |}' % (
                 cz(case['op']), cz(kind), hx(case['alpha'].encode()), clist([zl(_codes(case, r)) for r in case['rows']], '(list Z)'),
-                cz(case['w']), cz(case['k']), zl(_codes(case, case['pat'])),
+                cz(case['w']), cz(case['k']), pat,
                 clist([zl(c) for c in cols], '(list Z)'), cbool(err),
                 clist([zl(r) for r in out], '(list Z)'), clist([hx(s.encode('latin1')) for s in labels], '(list Z)')))
 
 
 def nontrivial(case, o):
+    if OPS[case['op']] == 'count_big':
+        return True
     return len(case['rows']) >= 2 and any(len(r) >= case['w'] for r in case['rows'])
 
 
@@ -355,10 +469,18 @@ def explain(case, o):
             'minimizers': 'bnp.get_minimizers(seqs, %d, %d)' % (case['k'], case['w']),
             'match': 'bnp.match_string(seqs, %r)' % case['pat'],
             'motif': 'bnp.get_motif_scores(seqs, PWM(np.array(%r, float).T, %r))' % (case['cols'], case['alpha']),
-            'motif_real': 'bnp.get_motif_scores(seqs, PWM.from_counts(dict(zip(%r, np.array(%r).T.tolist()))))  # compared with tolerance' % (case['alpha'], case.get('counts')),
+            'motif_real': '',
             'count': 'bnp.sequence.count_kmers(seqs, %d)' % case['w'],
             'count_rows': 'bnp.sequence.count_kmers(seqs, %d, axis=-1)' % case['w'],
-            'codec': 'KmerEncoding(enc, %d).encode / .to_string on every window' % case['w']}[op]
+            'codec': 'KmerEncoding(enc, %d).encode / .to_string on every window' % case['w'],
+            'count_weighted': 'count_encoded(bnp.get_kmers(seqs, %d).ravel(), weights=np.array(%r), axis=None)' % (case['w'], case.get('weights')),
+            'count_big': 'count_kmers(as_encoded_array([p * r for p, r in zip(%r, %r)], DNAEncoding), 1)' % (case['rows'], case.get('reps'))}[op]
+    if op == 'motif_real':
+        call = 'bnp.get_motif_scores(seqs, <PWM via %s from position weights %r%s>)  # compared with tolerance' % (
+            case.get('ctor'), case.get('weights'), (', background listed as %r' % case['bg']) if case.get('bg') else '')
+    call += '   [calling convention %d: 0 positional / 1 keywords / 2 keywords reversed]' % case.get('kw', 0)
+    if op == 'count_big':
+        return 'bnp.sequence.' + call
     enc = {'dna': 'bnp.DNAEncoding', 'amino': 'bnp.encodings.AminoAcidEncoding'}.get(case['enc'], 'AlphabetEncoding(%r)' % case['alpha'])
     if case.get('kind') == 'single':
         return 'seqs = bnp.as_encoded_array(%r%s)  # ONE sequence, 1-d; %s' % (case['rows'][0], '' if case['ascii'] else ', ' + enc, call)
@@ -415,7 +537,8 @@ def _flat_route(case, o):
     if op == 'motif':
         return [[sum(case['cols'][j][flat[p + j]] for j in range(w)) for p in starts]], None
     if op == 'motif_real':
-        return [[sum(o['cols'][j][flat[p + j]] for j in range(w)) for p in starts]], None
+        cols = real_cols(case)
+        return [[sum(cols[j][flat[p + j]] for j in range(w)) for p in starts]], None
     return None, None
 
 
